@@ -113,7 +113,7 @@ def atom_text(atom: ast.AST, polarity: bool) -> str:
         flip = {ast.IsNot: ast.Is, ast.NotEq: ast.Eq, ast.NotIn: ast.In}
         for neg, pos in flip.items():
             if isinstance(op, neg):
-                a2 = copy.copy(atom)
+                a2 = clone(atom)
                 a2.ops = [pos()]
                 return ("" if not polarity else "not ") + norm(a2)
     return ("" if polarity else "not ") + norm(atom)
@@ -301,6 +301,23 @@ def _eval_order(root: ast.AST) -> Iterable[ast.AST]:
 # --------------------------------------------------------------------------
 # Local inlining
 # --------------------------------------------------------------------------
+def clone(node):
+    """Deep copy of an AST subtree that does not follow the parent / module
+    back-links the program database attaches to every node."""
+    if isinstance(node, list):
+        return [clone(x) for x in node]
+    if not isinstance(node, ast.AST):
+        return node
+    new = type(node)()
+    for fld in node._fields:
+        if hasattr(node, fld):
+            setattr(new, fld, clone(getattr(node, fld)))
+    for a in ("lineno", "col_offset", "end_lineno", "end_col_offset"):
+        if hasattr(node, a):
+            setattr(new, a, getattr(node, a))
+    return new
+
+
 def single_assignments(fnode: ast.AST) -> Dict[str, ast.AST]:
     """name -> value for locals assigned exactly once by a plain ``x = e``
     (not in a loop target, not augmented, not a parameter)."""
@@ -348,13 +365,13 @@ class _Inliner(ast.NodeTransformer):
     def visit_Name(self, node: ast.Name):
         if isinstance(node.ctx, ast.Load) and node.id in self.defs and self.depth > 0:
             sub = _Inliner(self.defs, self.depth - 1)
-            return sub.visit(copy.deepcopy(self.defs[node.id]))
+            return sub.visit(clone(self.defs[node.id]))
         return node
 
 
 def inline_locals(expr: ast.AST, fnode: ast.AST, defs: Optional[Dict[str, ast.AST]] = None) -> ast.AST:
     defs = single_assignments(fnode) if defs is None else defs
-    return _Inliner(defs).visit(copy.deepcopy(expr))
+    return _Inliner(defs).visit(clone(expr))
 
 
 def inlined_text(expr: ast.AST, fnode: ast.AST, defs=None) -> str:
